@@ -11,6 +11,7 @@ use std::io::Write as _;
 
 thread_local! {
     static DUMP_FILE: RefCell<Option<std::path::PathBuf>> = const { RefCell::new(None) };
+    static BEGIN_TIME: RefCell<Option<std::time::Instant>> = const { RefCell::new(None) };
 }
 
 pub fn enabled() -> bool {
@@ -42,10 +43,13 @@ pub fn begin(lexer_name: &str) {
     let mut path = std::path::PathBuf::from(dir);
     path.push(format!("{}.dump", lexer_name));
     DUMP_FILE.with(|f| *f.borrow_mut() = Some(path));
+    BEGIN_TIME.with(|t| *t.borrow_mut() = Some(std::time::Instant::now()));
     emit(&format!("BEGIN {}\n", lexer_name));
 }
 
 pub fn end() {
+    let millis = BEGIN_TIME.with(|t| t.borrow().map(|t| t.elapsed().as_millis()).unwrap_or(0));
+    emit(&format!("TIME {}\n", millis));
     emit("END\n");
     DUMP_FILE.with(|f| *f.borrow_mut() = None);
 }
